@@ -52,6 +52,8 @@ PREFIXES = [
     ("comment", "# "), ("bullet", "  * "), ("bullet2", "    - "), ("done+zid", f"x {PRIMARY} "),
     # two blanks inside the prefix: the primary ZID is still the primary ZID
     ("spaced+zid", f"-  {PRIMARY} "), ("spaced-prio+zid", f"o P2  {PRIMARY} "),
+    # a new item (no ZID yet) whose FIRST word is the first target ("\x01": no leading 'see')
+    ("note-direct", "- \x01"), ("prio-direct", "o P1 \x01"), ("dated-direct", "x 240601 \x01"),
 ]
 WRAPPERS = ["bare", "trail", "paren", "quote", "iprop"]
 
@@ -78,7 +80,9 @@ def wrap(text: str, w: str, k: int) -> str:
 
 def build_line(prefix: str, seq, wrapper: str) -> str:
     """prefix + 'see' + targets separated by plain words."""
-    parts = ["see"]
+    direct = prefix.endswith("\x01")
+    prefix = prefix.rstrip("\x01")
+    parts = [] if direct else ["see"]
     for k, t in enumerate(seq):
         parts.append(wrap(TARGETS[t], wrapper, k))
         parts.append("and" if k % 2 == 0 else "also")
@@ -134,6 +138,8 @@ def _env(ctx):
             for w in wrappers:
                 if not seq and w != "bare":
                     continue
+                if pname.endswith("-direct") and (not seq or seq[0] == "zid"):
+                    continue  # a bare ZID right after the prefix IS the item's own ZID
                 specs.append((pname, ptxt, list(seq), w))
     # reference lines: each single target alone after an ordinary word
     ref_start = len(specs)
